@@ -74,6 +74,37 @@ class Site:
     def loc(self):
         return "%s:%s" % (self.span.get("file"), self.span.get("line"))
 
+    def shape(self):
+        """`detail` with every local-variable / captured-variable name replaced by %1, %2, .. in
+        order of first appearance: what the T2 shape regexes are matched against, so that renaming a
+        local does not change the shape of an audited site (parameters keep their names)."""
+        if getattr(self, "_shape", None) is not None:
+            return self._shape
+        b = self.body
+        names = set()
+        for l, d in enumerate(b.locals):
+            nm = d.get("name")
+            if nm and (l > b.argc or b.kind == "Closure") and nm != "self":
+                names.add(nm)
+        for m in re.finditer(r"\^\*?([A-Za-z_]\w*)", self.detail):
+            if m.group(1) != "self":
+                names.add(m.group(1))
+        order = {}
+
+        def sub(m):
+            w = m.group(0)
+            if w not in names:
+                return w
+            pre = self.detail[max(0, m.start() - 2):m.start()]
+            post = self.detail[m.end():m.end() + 2]
+            if pre.endswith(".") or pre.endswith("::") or post.startswith(":") or post.startswith("("):
+                return w
+            if w not in order:
+                order[w] = "%%%d" % (len(order) + 1)
+            return order[w]
+        self._shape = re.sub(r"[A-Za-z_]\w*", sub, self.detail)
+        return self._shape
+
     def mac(self):
         return self.span.get("mac")
 
